@@ -83,8 +83,47 @@ func invalidMerge(node *yaml.Node) (*yaml.Node, error) {
 	return nil, nil
 }
 
+// invalidTag returns the first node with an explicit tag that contradicts its value
+// (`!!seq {}`, `!!str [a]`, `!!null x`), the YAML decoder refuses to decode those.
+func invalidTag(node *yaml.Node) (*yaml.Node, error) {
+	if node.Style&yaml.TaggedStyle != 0 {
+		tag := node.ShortTag()
+		switch node.Kind { // nolint: exhaustive
+		case yaml.MappingNode:
+			if tag != mapTag && strings.HasPrefix(tag, "!!") {
+				return node, fmt.Errorf("%s tag cannot be used on a mapping", tag)
+			}
+		case yaml.SequenceNode:
+			if tag != seqTag && strings.HasPrefix(tag, "!!") {
+				return node, fmt.Errorf("%s tag cannot be used on a list", tag)
+			}
+		case yaml.ScalarNode:
+			if tag == mapTag || tag == seqTag {
+				return node, fmt.Errorf("%s tag cannot be used on a scalar value", tag)
+			}
+			var v any
+			if err := node.Decode(&v); err != nil {
+				return node, errors.New(strings.TrimPrefix(err.Error(), "yaml: "))
+			}
+		}
+	}
+	for _, child := range node.Content {
+		if bad, err := invalidTag(child); err != nil {
+			return bad, err
+		}
+	}
+	return nil, nil
+}
+
 func parseGroups(doc *yaml.Node, schema Schema, offsetLine, offsetColumn int, contentLines []string) (groups []Group, _ ParseError) {
 	names := map[string]struct{}{}
+
+	if node, err := invalidTag(doc); err != nil {
+		return nil, ParseError{
+			Line: node.Line,
+			Err:  err,
+		}
+	}
 
 	if key, err := invalidMerge(doc); err != nil {
 		return nil, ParseError{
